@@ -348,6 +348,18 @@ package state
 //@ ensures[ok-index] ok ==> idxVal("connect-ca-roots") == idx
 //@ ensures[err-not-ok] err != nil ==> !ok
 
+// roots and configuration in one transaction (the composite CA operation): applied only if both comparisons hold,
+// and `true` is reported exactly when the single transaction was committed
+//@ func Store.CARootsAndConfigSetCAS
+//@ props C10
+//@ results ok, err
+//@ requires config != nil
+//@ requires[roots-present] forall j int :: 0 <= j && j < len(rs) ==> rs[j] != nil
+//@ ensures[applied-only-if-both-matched] ok ==> old(idxVal("connect-ca-roots")) == cidx && ite(old(T_connect_ca_config()) == nil, old(config.ModifyIndex) == 0, old(T_connect_ca_config().ModifyIndex) == old(config.ModifyIndex))
+//@ ensures[reported-iff-committed] commits() == ite(ok, old(commits()) + 1, old(commits()))
+//@ ensures[ok-stored] ok ==> T_connect_ca_config() == config && idxVal("connect-ca-roots") == idx
+//@ ensures[err-not-ok] err != nil ==> !ok
+
 //@ func Store.CAIncrementProviderSerialNumber
 //@ props C12
 //@ results next, err
